@@ -139,6 +139,8 @@ type Knobs struct {
 	ArgPct     int
 	Chain      bool // long dependency chains (deep cleanup stacks)
 	ExtPkgs    int  // leading packages placed in the dependency module (vendored in vendor layouts)
+	Leafy      bool // many providers without parameters at every depth: leaves that come LATE in the call plan
+	LeafClean  bool // only parameterless providers return cleanups (a resource opened from nothing), the others may only fail
 }
 
 // RandomKnobs draws swarm parameters.
@@ -147,7 +149,9 @@ func RandomKnobs(r *rand.Rand, big bool) Knobs {
 		NPkgs:      1 + r.IntN(5),
 		NTypes:     6 + r.IntN(20),
 		ErrPct:     []int{0, 30, 60, 90}[r.IntN(4)],
-		CleanupPct: []int{0, 30, 60, 100}[r.IntN(4)],
+		CleanupPct: []int{0, 15, 30, 60, 100}[r.IntN(5)],
+		Leafy:      r.IntN(4) == 0,
+		LeafClean:  r.IntN(4) == 0,
 		FanIn:      1 + r.IntN(4),
 		NSets:      r.IntN(6),
 		InjPerPkg:  1 + r.IntN(4),
@@ -296,6 +300,9 @@ func Generate(r *rand.Rand, k Knobs) *Module {
 				return nil
 			}
 			n := r.IntN(max + 1)
+			if k.Leafy && r.IntN(2) == 0 {
+				n = 0
+			}
 			if k.Chain && n == 0 {
 				n = 1
 			}
@@ -361,6 +368,10 @@ func Generate(r *rand.Rand, k Knobs) *Module {
 			}
 			t.Src.HasErr = r.IntN(100) < k.ErrPct
 			t.Src.HasCleanup = r.IntN(100) < k.CleanupPct
+			if k.LeafClean {
+				t.Src.HasCleanup = len(t.Src.Params) == 0 && r.IntN(100) < 35
+				t.Src.HasErr = r.IntN(100) < 60
+			}
 			if t.Kind == "struct" {
 				t.Ptr = r.IntN(2) == 0
 			}
